@@ -85,7 +85,8 @@ where
         let b_iter = product2_iter(&w0.simplex.belief, &w1.simplex.belief);
         let a = MArrD2::product2(&w0.base_rate, &w1.base_rate);
         let u = izip!(p_iter.clone(), b_iter, &a)
-            .map(|(p, b, &a)| (p - b) / a)
+            // a zero base rate puts no bound on u (the exact quotient is +inf or 0/0)
+            .map(|(p, b, &a)| if a == V::zero() { V::infinity() } else { (p - b) / a })
             .reduce(V::min)
             .unwrap();
         let b = MArrD2::<D0, D1, V>::from_iter(p_iter.zip(&a).map(|(p, &a)| p - a * u));
@@ -110,7 +111,8 @@ where
         let b_iter = product3_iter(&w0.simplex.belief, &w1.simplex.belief, &w2.simplex.belief);
         let a = MArrD3::product3(&w0.base_rate, &w1.base_rate, &w2.base_rate);
         let u = izip!(p_iter.clone(), b_iter, &a)
-            .map(|(p, b, &a)| (p - b) / a)
+            // a zero base rate puts no bound on u (the exact quotient is +inf or 0/0)
+            .map(|(p, b, &a)| if a == V::zero() { V::infinity() } else { (p - b) / a })
             .reduce(V::min)
             .unwrap();
         let b = MArrD3::<D0, D1, D2, _>::from_iter(p_iter.zip(&a).map(|(p, &a)| p - a * u));
